@@ -29,6 +29,8 @@ import (
 //	cli  <fwd> <rev> <e> <min> <max> <delta> <full> [<circ> <frag>] <tpl>
 //	     obipcr.CLIPCR on one template (options set through the verif hook; 9 fields: circ = 0, frag = 1)
 //
+//	conc / concli …   the PCR worker closure / the whole command under concurrent use: see c11_conc.go
+//
 // result: per template (separated by "|") the amplicons in the order PCRSlice returns them, each
 // d/from+1..to/amplicon/forward_match/forward_error/reverse_match/reverse_error/forward_primer/reverse_primer/others
 // ("," separated, "-" = none); `from+1..to` is the coordinate part of the amplicon id written by BioSequence.Subsequence;
